@@ -30,6 +30,11 @@ impl Cfg {
     }
 }
 
+/// signature without the suffix naming the build variant that produced it
+pub fn strip_variant(sig: &str) -> &str {
+    sig.trim_end_matches("+debug-assertions").trim_end_matches("+asan")
+}
+
 /// "release" or "debug-assertions" (the relcheck profile: OxiDD with debug assertions and
 /// overflow checks, harness unchanged)
 pub fn variant() -> String {
@@ -254,6 +259,19 @@ pub fn is_bool_kind(c: &Value) -> bool {
     matches!(c["kind"].as_str(), Some("bdd" | "bcdd" | "zbdd"))
 }
 
+/// Address-space limit for a forked child that feeds untrusted input to a parser (a runaway
+/// allocation becomes an abort instead of exhausting the machine). Not under AddressSanitizer,
+/// whose shadow memory needs terabytes of address space.
+pub fn limit_address_space(bytes: u64) {
+    if variant() == "asan" {
+        return;
+    }
+    unsafe {
+        let lim = libc::rlimit { rlim_cur: bytes, rlim_max: bytes };
+        libc::setrlimit(libc::RLIMIT_AS, &lim);
+    }
+}
+
 /// Run a single closure in a forked child.
 pub fn isolated(timeout_s: u64, mut f: impl FnMut(&mut dyn Write)) -> JobOut {
     use std::sync::atomic::Ordering::Relaxed;
@@ -443,7 +461,7 @@ pub fn known(prop: &str, sig: &str) -> bool {
 /// Is `sig` an *open* known finding of this property?
 pub fn is_known(findings: &[Finding], prop: &str, sig: &str) -> bool {
     // an open finding covers the release and the debug-assertion build alike
-    let sig = sig.trim_end_matches("+debug-assertions");
+    let sig = strip_variant(sig);
     findings.iter().any(|f| f.property == prop && f.status == "open" && f.signature == sig)
 }
 
@@ -470,19 +488,25 @@ pub fn conclude(cfg: &Cfg, rep: &Report, meta: Meta, start: Instant) -> i32 {
         println!("{} {} [sub-run {}]: evaluations={} nontrivial={} violations={} inconclusive={}", cfg.prop, cfg.tier(), variant(), rep_own.evaluations, rep_own.nontrivial, rep_own.viols.len(), rep_own.inconclusive.len());
         return 0;
     }
-    // --- second pass with OxiDD's debug assertions and overflow checks enabled
+    // --- further passes of the quick tier with other builds of the same harness:
+    //     "debug-assertions": OxiDD (and the code instantiating its generics) with debug assertions
+    //                         and overflow checks (every run);
+    //     "asan": AddressSanitizer build (nightly toolchain; thorough tier only)
     let mut relcheck_info = json!(null);
+    let mut asan_info = json!(null);
     if cfg.replay.is_none() && !matches!(cfg.prop.as_str(), "C19" | "C20") {
-        if let Ok(bin) = std::env::var("VERIF_RELCHECK_BIN") {
+        for (variant, envvar, label) in [("debug-assertions", "VERIF_RELCHECK_BIN", "OxiDD built with debug assertions and overflow checks"), ("asan", "VERIF_ASAN_BIN", "AddressSanitizer build")] {
+            let Ok(bin) = std::env::var(envvar) else { continue };
             let vd = verif_dir();
             let _ = std::fs::create_dir_all(format!("{vd}/target/sub"));
-            let out = format!("{vd}/target/sub/{}.json", cfg.prop);
+            let out = format!("{vd}/target/sub/{}-{variant}.json", cfg.prop);
             let _ = std::fs::remove_file(&out);
             let t0 = Instant::now();
             let st = std::process::Command::new(&bin)
                 .args([cfg.prop.as_str(), "quick"])
                 .env("VERIF_SUB_OUT", &out)
-                .env("VERIF_VARIANT", "debug-assertions")
+                .env("VERIF_VARIANT", variant)
+                .env("ASAN_OPTIONS", "detect_leaks=0:abort_on_error=1:allocator_may_return_null=1")
                 .env("VERIF_SEED", format!("{}", if cfg.thorough { cfg.seed.wrapping_add(1) } else { cfg.seed }))
                 .stdout(std::process::Stdio::null())
                 .stderr(std::process::Stdio::null())
@@ -491,19 +515,24 @@ pub fn conclude(cfg: &Cfg, rep: &Report, meta: Meta, start: Instant) -> i32 {
             match (st, sub) {
                 (Ok(st), Some(v)) if st.success() => {
                     if let Ok(r) = serde_json::from_value::<Report>(v["report"].clone()) {
-                        relcheck_info = json!({"binary": bin, "tier": "quick", "evaluations": r.evaluations, "distinct_nontrivial": r.nontrivial, "violations": r.viols.len(), "wall_s": t0.elapsed().as_secs_f64()});
+                        let info = json!({"binary": bin, "tier": "quick", "evaluations": r.evaluations, "distinct_nontrivial": r.nontrivial, "violations": r.viols.len(), "wall_s": t0.elapsed().as_secs_f64()});
+                        if variant == "asan" {
+                            asan_info = info;
+                        } else {
+                            relcheck_info = info;
+                        }
                         rep_own.evaluations += r.evaluations;
                         rep_own.nontrivial += r.nontrivial;
                         rep_own.excluded_by_known_finding += r.excluded_by_known_finding;
                         for i in r.inconclusive {
-                            rep_own.inconclusive.push(format!("[debug-assertion build] {i}"));
+                            rep_own.inconclusive.push(format!("[{variant} build] {i}"));
                         }
                         for v in r.viols {
-                            rep_own.viols.push(Viol { sig: format!("{}+debug-assertions", v.sig), what: format!("[OxiDD built with debug assertions and overflow checks] {}", v.what), case: v.case });
+                            rep_own.viols.push(Viol { sig: format!("{}+{variant}", v.sig), what: format!("[{label}] {}", v.what), case: v.case });
                         }
                     }
                 }
-                (st, _) => rep_own.inconclusive.push(format!("debug-assertion build: sub-run did not deliver a report ({st:?})")),
+                (st, _) => rep_own.inconclusive.push(format!("{variant} build: sub-run did not deliver a report ({st:?})")),
             }
         }
     }
@@ -514,7 +543,7 @@ pub fn conclude(cfg: &Cfg, rep: &Report, meta: Meta, start: Instant) -> i32 {
     let mut known: BTreeMap<String, usize> = BTreeMap::new();
     for v in &rep.viols {
         if is_known(&findings, &cfg.prop, &v.sig) {
-            *known.entry(v.sig.trim_end_matches("+debug-assertions").to_string()).or_insert(0) += 1;
+            *known.entry(strip_variant(&v.sig).to_string()).or_insert(0) += 1;
         } else {
             new_viols.push(v.clone());
         }
@@ -538,6 +567,8 @@ pub fn conclude(cfg: &Cfg, rep: &Report, meta: Meta, start: Instant) -> i32 {
             let mut body = json!({"property": cfg.prop, "signature": v.sig, "what": v.what, "case": v.case, "seed": cfg.seed, "tier": cfg.tier()});
             if v.sig.ends_with("+debug-assertions") {
                 body["variant"] = json!("debug-assertions");
+            } else if v.sig.ends_with("+asan") {
+                body["variant"] = json!("asan");
             }
             let _ = std::fs::write(&fname, serde_json::to_string_pretty(&body).unwrap());
             println!("VIOLATION property={} replay={}", cfg.prop, fname);
@@ -548,7 +579,7 @@ pub fn conclude(cfg: &Cfg, rep: &Report, meta: Meta, start: Instant) -> i32 {
         // campaign replay (modules without a case-level replay): the recorded seed and tier were
         // restored by main(); only the recorded signature counts
         if let Some(want) = &cfg.replay_sig {
-            let want = want.trim_end_matches("+debug-assertions").to_string();
+            let want = strip_variant(want).to_string();
             new_viols.retain(|v| v.sig == want);
             if new_viols.is_empty() {
                 println!("replay: the recorded violation ({want}) does not occur any more");
@@ -567,13 +598,14 @@ pub fn conclude(cfg: &Cfg, rep: &Report, meta: Meta, start: Instant) -> i32 {
     let mut coverage = json!({
         "evaluations": rep.evaluations,
         "distinct_nontrivial": rep.nontrivial,
-        "rule": if relcheck_info.is_null() { meta.rule.to_string() } else { format!("{} SECOND PASS: the quick tier of the same check is then executed by a build in which OxiDD and all dependencies are compiled with debug assertions and overflow checks (cargo profile relcheck; the harness itself unchanged), so that OxiDD's internal assertions act as additional oracles and panics that only debug builds show are found; its evaluations are included in the counts, and violations found there carry the signature suffix +debug-assertions.", meta.rule) },
+        "rule": if relcheck_info.is_null() { meta.rule.to_string() } else { format!("{} SECOND PASS: the quick tier of the same check is then executed by a build in which OxiDD and all dependencies are compiled with debug assertions and overflow checks (cargo profile relcheck; the harness itself unchanged), so that OxiDD's internal assertions act as additional oracles and panics that only debug builds show are found; its evaluations are included in the counts, and violations found there carry the signature suffix +debug-assertions.{}", meta.rule, if asan_info.is_null() { "" } else { " THIRD PASS (thorough tier): the quick tier is executed once more by an AddressSanitizer build of the harness and OxiDD (nightly -Zsanitizer=address), so that out-of-bounds accesses and use-after-free in OxiDD's unsafe code become crashes; signature suffix +asan." }) },
         "samples": rep.samples,
         "classes": rep.classes,
         "exhaustive": rep.exhaustive,
         "excluded_by_known_finding": rep.excluded_by_known_finding,
         "known_findings_hit": known,
         "debug_assertion_build": relcheck_info,
+        "asan_build": asan_info,
         "inconclusive": rep.inconclusive,
         "violation_details": new_viols.iter().take(10).map(|v| json!({"sig": v.sig, "what": v.what, "case": v.case})).collect::<Vec<_>>(),
     });
